@@ -16,7 +16,7 @@ LEVEL_TEXT = ("Tens of thousands of term pairs and triples built the ways user c
               "laws, hash consistency (also via real dict lookups) and agreement with the engine's own unifier.")
 LEVEL_NOTE = "Pure in-process audit of problog.logic objects; bounded term depth 3."
 TECHNIQUE = "runtime law audit (equivalence + hash consistency + unifier agreement) over constructed term pools"
-BUDGET = {"quick": 1500, "thorough": 40000}
+BUDGET = {"quick": 4000, "thorough": 100000}
 TIME_BUDGET = {"quick": 200, "thorough": 3000}
 CASE_TIMEOUT = 60
 
